@@ -267,7 +267,13 @@ def load_module_from_file_object(
             )
         elif magic_int == 62135:
             fp.seek(0)
-            return fix_dropbox_pyc(fp)
+            try:
+                return fix_dropbox_pyc(fp)
+            except Exception:
+                kind, msg = sys.exc_info()[0:2]
+                raise ImportError(
+                    f"Ill-formed Dropbox bytecode file {filename}\n{kind}; {msg}"
+                )
         elif magic_int == 62215:
             raise ImportError(
                 "%s is a dropbox-hacked Python %s (bytecode %d).\n"
